@@ -109,6 +109,7 @@ type scenario struct {
 	RootExits bool   `json:"rootExits"`
 	StartMode string `json:"startMode"`
 	StopMode  string `json:"stopMode"`
+	RootIgn   bool   `json:"rootIgnTerm"` // the direct child ignores SIGTERM
 	Launcher  string `json:"launcher"` // direct | translated (through a command translator: env, which execs the command)
 	Desc      []int  `json:"desc"`
 }
@@ -194,6 +195,7 @@ func runTree(id int, sc scenario, scratch string) (treeEvent, error) {
 			}
 		} else {
 			n.ExitEarly = sc.RootExits
+			n.IgnTerm = sc.RootIgn
 		}
 		for _, d := range sc.Desc {
 			if sc.Parent[d-1] == id {
